@@ -44,7 +44,7 @@ def gen(ch, tier):
                 pri_crc=ch.choice('pc', (0, 0, 2, 1)), blk_crc=ch.choice('bc', (0, 0, 1, 2)), window=ch.pick('window', 1 << 16),
                 wsize=24 if tier == 'quick' else 96, accept=ch.coin('accept', 2, 3), dst_key=ch.choice('dstkey', ('right', 'right', 'right', 'wrong', 'missing')),
                 falg=ch.choice('falg', (1, 3)), scope=ch.choice('scope', ([[0, 1], [-1, 1]], [[0, 1], [-1, 1], [-2, 1]], [[-1, 1]])),
-                tgt_ext=(kind != 'foreign' and ch.coin('tgtext', 1, 3)), split_assoc=ch.coin('split', 1, 2), fixup=True)
+                tgt_ext=(kind != 'foreign' and ch.coin('tgtext', 1, 3)), split_assoc=ch.coin('split', 1, 2), typed_ext=ch.coin('typed', 1, 2), fixup=True)
 
 
 def _kid(plan):
@@ -69,9 +69,9 @@ def _policy(plan):
             ivs.append((b'XV' + _iv(C03.seq_code(ix))[2:]).hex())
     if plan.get('tgt_ext') and plan.get('split_assoc'):
         # two associations, the one for the extension block listed first: operations are not in ascending target order
-        return [dict(src='.*', dst='.*', targets=[192], ops=[dict(type='bcb', kid=_kid(plan), ivs=ivs[1::2])]),
+        return [dict(src='.*', dst='.*', targets=[10 if plan.get('typed_ext') else 192], ops=[dict(type='bcb', kid=_kid(plan), ivs=ivs[1::2])]),
                 dict(src='.*', dst='.*', targets=[1], ops=[dict(type='bcb', kid=_kid(plan), ivs=ivs[0::2])])]
-    return [dict(src='.*', dst='.*', targets=[1, 192] if plan.get('tgt_ext') else [1], ops=[dict(type='bcb', kid=_kid(plan), ivs=ivs)])]
+    return [dict(src='.*', dst='.*', targets=[1, 10 if plan.get('typed_ext') else 192] if plan.get('tgt_ext') else [1], ops=[dict(type='bcb', kid=_kid(plan), ivs=ivs)])]
 
 
 def _dst_keys(plan):
@@ -91,7 +91,10 @@ def make_copy(plan, har, index):
     seqno = C03.seq_code(index)
     plain = plaintext(plan, index)
     ext = [dict(type=193, flags=ix & 1, crc_type=plan['blk_crc'], btsd=b'\x44OTH' + bytes([0x30 + ix])) for ix in range(plan['others'])]
-    if plan.get('tgt_ext'):
+    if plan.get('tgt_ext') and plan.get('typed_ext'):
+        # ... built by the source as a typed layer (hop count 30/2), the type code implied by the layer
+        ext.insert(0, dict(type=10, layer='hopcount', flags=0, crc_type=plan['blk_crc'], btsd=b'\x82\x18\x1e\x02'))
+    elif plan.get('tgt_ext'):
         # a second target of the same confidentiality block (block number 2, after the payload in target order)
         ext.insert(0, dict(type=192, flags=0, crc_type=plan['blk_crc'], btsd=b'\x4cSECOND-TARGET'))
     if plan['kind'] != 'foreign':
@@ -368,7 +371,11 @@ def _drive(run, plan, har):
     if first is None:
         run.viols.append(('setup', 'source-did-not-transmit', 'the source node transmitted nothing for the bundle to be encrypted'))
         return
-    orig0 = rfc9171.decode_bundle(first)
+    try:
+        orig0 = rfc9171.decode_bundle(first)
+    except rfc9171.Malformed as err:
+        run.viols.append(('wire', 'source-output-malformed', 'the encrypted bundle the source transmitted is not well-formed: %s' % err))
+        return
     bcbs = sc.sec_blocks(orig0, rfc9171.TYPE_BCB)
     plain = plaintext(plan, index)
     if not bcbs:
